@@ -1,4 +1,4 @@
-CONSTANTS DocLen = 2  MaxDecls = 2  MaxFiles = 2  NRuns = 3  Bug = "FloatingDoc"  Emit = FALSE
+CONSTANTS DocLen = 2  MaxDecls = 2  MaxFiles = 2  NRuns = 3  Sizes = {}  Bug = "FloatingDoc"  Emit = FALSE
 INIT Init
 NEXT Next
 INVARIANT NoMismatch
